@@ -1120,3 +1120,151 @@ func (c *Check) ReleasedNotReturned(rule, constructPrefix string, fns []*ssa.Fun
 	c.Sites(sites)
 	return sites
 }
+
+// NotUsedAfterRelease: once a buffer has been handed to sync.Pool.Put (not deferred) the function no longer touches its
+// contents: on no path from the Put is the released storage passed to a call, copied, sent, stored or indexed before the
+// variable holding it is assigned afresh. (Another pool user may already own and overwrite it.)
+func (c *Check) NotUsedAfterRelease(rule, constructPrefix string, fns []*ssa.Function) (sites int) {
+	put := X("sync", "Pool", "Put")
+	for _, fn := range fns {
+		if fn == nil || fn.Blocks == nil {
+			continue
+		}
+		n, bad := 0, ""
+		for _, b := range fn.Blocks {
+			for i, ins := range b.Instrs {
+				call, ok := ins.(*ssa.Call)
+				if !ok || !IsCallTo(call, put) {
+					continue
+				}
+				args := CallArgs(call.Common())
+				if len(args) < 2 {
+					continue
+				}
+				ptr := args[1]
+				for {
+					if mi, ok := ptr.(*ssa.MakeInterface); ok {
+						ptr = mi.X
+						continue
+					}
+					if ci, ok := ptr.(*ssa.ChangeInterface); ok {
+						ptr = ci.X
+						continue
+					}
+					break
+				}
+				n++
+				// does v read the released storage (a load through ptr, possibly re-sliced / converted)?
+				var derives func(v ssa.Value, depth int) bool
+				derives = func(v ssa.Value, depth int) bool {
+					if depth > 6 || v == nil {
+						return false
+					}
+					switch x := v.(type) {
+					case *ssa.UnOp:
+						return x.Op == token.MUL && x.X == ptr
+					case *ssa.Slice:
+						return derives(x.X, depth+1)
+					case *ssa.ChangeType:
+						return derives(x.X, depth+1)
+					case *ssa.Convert:
+						return derives(x.X, depth+1)
+					case *ssa.MakeInterface:
+						return derives(x.X, depth+1)
+					case *ssa.IndexAddr:
+						return derives(x.X, depth+1)
+					}
+					return v == ptr && depth > 0
+				}
+				uses := func(x ssa.Instruction) bool {
+					switch y := x.(type) {
+					case ssa.CallInstruction:
+						cc := y.Common()
+						if b, ok := cc.Value.(*ssa.Builtin); ok && (b.Name() == "len" || b.Name() == "cap") {
+							return false
+						}
+						for _, a := range cc.Args {
+							if derives(a, 0) {
+								return true
+							}
+						}
+					case *ssa.Send:
+						return derives(y.X, 0)
+					case *ssa.Store:
+						return derives(y.Val, 0) || derives(y.Addr, 0)
+					case *ssa.Return:
+						for _, r := range y.Results {
+							if derives(r, 0) {
+								return true
+							}
+						}
+					case *ssa.Select:
+						for _, st := range y.States {
+							if st.Send != nil && derives(st.Send, 0) {
+								return true
+							}
+						}
+					case *ssa.UnOp:
+						if ia, ok := y.X.(*ssa.IndexAddr); ok && y.Op == token.MUL {
+							return derives(ia, 0)
+						}
+					}
+					return false
+				}
+				kills := func(x ssa.Instruction) bool {
+					if st, ok := x.(*ssa.Store); ok && st.Addr == ptr {
+						return true
+					}
+					if v, ok := x.(ssa.Value); ok && v == ptr {
+						return true // the variable's cell is created anew (next loop iteration)
+					}
+					return false
+				}
+				type pos struct {
+					b *ssa.BasicBlock
+					i int
+				}
+				seen := map[*ssa.BasicBlock]bool{}
+				work := []pos{{b, i + 1}}
+				for len(work) > 0 && bad == "" {
+					w := work[len(work)-1]
+					work = work[:len(work)-1]
+					killed := false
+					for j := w.i; j < len(w.b.Instrs); j++ {
+						x := w.b.Instrs[j]
+						if kills(x) {
+							killed = true
+							break
+						}
+						if uses(x) {
+							bad = fmt.Sprintf("the buffer released to the pool at %s is still used at %s: another user of the pool may already own and overwrite it", c.P.Pos(call.Pos()), c.P.Pos(x.Pos()))
+							break
+						}
+					}
+					if killed {
+						continue
+					}
+					for _, s := range w.b.Succs {
+						if !seen[s] {
+							seen[s] = true
+							work = append(work, pos{s, 0})
+						}
+					}
+				}
+			}
+		}
+		if n == 0 {
+			continue
+		}
+		sites += n
+		c.Touch(fn)
+		construct := fmt.Sprintf("%s in %s", constructPrefix, FuncName(fn))
+		if bad != "" {
+			c.Fail(rule, construct, fn, "", n, bad, nil)
+		} else {
+			c.OK(rule, construct, fn, n, fmt.Sprintf("%d pool releases; the released storage is not touched afterwards", n))
+		}
+	}
+	c.Sites(sites)
+	return sites
+}
